@@ -262,6 +262,11 @@ def run(chk, replay=None):
         nl.append(rline)
     elif not replay:
         quick = chk.tier == "quick"
+        cdir = os.path.join(C.ROOT, "corpus", "C14")
+        if os.path.isdir(cdir):
+            for f in sorted(os.listdir(cdir)):
+                nl += [l.strip() for l in open(os.path.join(cdir, f))
+                       if l.strip() and not l.startswith("#") and l.split()[0] in NEWK]
         for b in DB:
             nl.append("number %016x" % b)
         for _ in range(40000 if quick else 600000):
@@ -368,9 +373,12 @@ def run(chk, replay=None):
             if not (math.isfinite(x) and x == int(x) and lo <= int(x) < hi):
                 chk.violation(f"integer::number({lo},{hi}).init() returned {x!r}: not an integer of [{lo},{hi})",
                               rep, tags=tags)
-            if c[1:] != ["1"]:
+            if "ub" in c[1:]:
+                chk.count("cpp_ub")
+                chk.violation(f"undefined behaviour (UBSan) in integer::number({lo},{hi}).init()", rep, tags=tags)
+            if c[1:2] != ["1"]:
                 chk.violation("integer::number::parametric() is false", rep, tags=tags)
-            if m is not None and m != a:
+            if m is not None and m.split() != c[:2]:
                 nd2 += 1
                 if nd2 <= 3:
                     broken.append(f"generated `numberInit` disagrees with compiled code on `{q}`: model {m!r}, code {a!r}")
